@@ -737,3 +737,11 @@ def c04_i(ctx):
 def c04_j(ctx):
     from . import C01 as _C01     # imported late: C01 imports helpers from this module
     return _C01.c01_f(ctx)
+
+
+
+@obligation('C04-k', 'T6 T11', 'threshold 0 and batch index 0 are never tested by truth value', floor=2,
+            necessary='a falsy test treats batch 0 / threshold 0 as missing: which batches are consumed then depends on the schedule')
+def c04_k(ctx):
+    from .base import zero_is_valid_obligation
+    zero_is_valid_obligation(ctx, ['batch_index', 'threshold'])
